@@ -175,7 +175,7 @@ def _run_case(spec):
                 common.add_violation(res, f"null_vector_base/{tname}", {})
             # orthonormality
             if gi == 0:
-                off_axis = (x * x + y * y) > (0.6 * g['d']) ** 2
+                off_axis = (x * x + y * y) > (0.6 * np.max(g['d'])) ** 2
                 gam, G = ex['gammadown3'], ex['gdown4']
                 if tname == "qK":
                     tri = [v[1:] for v in e[1:]]
@@ -217,7 +217,7 @@ def _run_case(spec):
                                     np.random.default_rng(lor_seed))
                 Ih, Jh = inv_IJ(psis(W, *null_from(*ht)))
                 # the quasi-Kinnersley triad degenerates on the polar axis
-                keep = ((x * x + y * y) > (0.6 * g['d']) ** 2
+                keep = ((x * x + y * y) > (0.6 * np.max(g['d'])) ** 2
                         if tname == "qK" else np.ones(x.shape, bool))
                 for nm, val, ref in (('I', inv['I'], Ih), ('J', inv['J'], Jh)):
                     code[f'inv_{nm}/{tname}'] = np.array(
